@@ -12,5 +12,6 @@ CHECKS["C05"] = dict(
     assumptions=["gates are opened with ranges of positive length"],
     tests=[dict(name="TestC05Control", quick=dict(cases=40000, shards=2), thorough=dict(cases=400000, shards=12, timeout=1500)),
            dict(name="TestC05Concurrent", race=True, quick=dict(cases=3000, shards=2, gomaxprocs=[4, 16]), thorough=dict(cases=40000, shards=8, gomaxprocs=[1, 2, 4, 16], timeout=1500)),
+           dict(name="TestC05Relay", quick=dict(cases=1200, shards=2), thorough=dict(cases=12000, shards=8, timeout=1500)),
            dict(name="TestC05Writers", quick=dict(cases=1500, shards=2), thorough=dict(cases=15000, shards=8, timeout=1500))],
 )
